@@ -346,9 +346,13 @@ class ModeBasis(object):
             The mode to add to the ModeBasis
         '''
         if self.is_sparse:
+            if not scipy.sparse.issparse(mode) and np.ndim(mode) == 1:
+                # A single mode becomes one more column of the transformation matrix.
+                mode = scipy.sparse.csc_matrix(np.asarray(mode).reshape((-1, 1)))
             self._transformation_matrix = scipy.sparse.hstack((self._transformation_matrix, mode), 'csc')
         else:
-            self._transformation_matrix = np.concatenate((self._transformation_matrix, [mode]), axis=-1)
+            # A single mode becomes one more column (last axis) of the transformation matrix.
+            self._transformation_matrix = np.concatenate((self._transformation_matrix, np.asarray(mode)[..., np.newaxis]), axis=-1)
 
     def extend(self, modes):
         '''Extend the mode basis with `modes`.
@@ -365,6 +369,8 @@ class ModeBasis(object):
             self._transformation_matrix = scipy.sparse.hstack((self._transformation_matrix, modes), 'csc')
         else:
             # TODO: worry about modes being in a list instead of transformation matrix or mode basis
+            if scipy.sparse.issparse(modes):
+                modes = modes.toarray()
             self._transformation_matrix = np.concatenate((self._transformation_matrix, modes), axis=-1)
 
     def __add__(self, mode_basis):
